@@ -173,3 +173,10 @@ package swamp
 //@   ensures[no_event_for_noop_save] status == treasure.StatusSame ==> calls("swamp.sendEventToHydra") == old(calls("swamp.sendEventToHydra"))
 //@   ensures[changed_record_queued_for_writer] (status == treasure.StatusNew || status == treasure.StatusModified) ==> calledwith("Beacon.Add", 1, t)
 //@   ensures[noop_not_queued] status == treasure.StatusSame ==> calls("Beacon.Add") == old(calls("Beacon.Add"))
+
+// Index reads (properties C26, C07): a negative offset or limit is an error, never handed to an index
+// (whose paging arithmetic requires From >= 0).
+//@ func (*swamp).GetTreasuresByBeacon(s, beaconType, beaconOrderType, from, limit, fromTime, toTime) (out, err)
+//@   property C26 C07
+//@   modifies *
+//@   ensures[negative_paging_rejected] from < 0 || limit < 0 ==> err != nil
